@@ -1,6 +1,8 @@
 import XalanModel.C04.Model
 import XalanModel.C04.Spec
 import XalanModel.C04.CommentPI
+import XalanModel.C04.Indent
+import XalanModel.C04.DocReader
 import Driver.Util
 /-
 xm_c04: replays SAX event scripts on the Lean model of FormatterToXMLUnicode + writers + buffers.
@@ -67,6 +69,36 @@ def parseEvent (w : String) : Option Event :=
     pure (.pi t d)
   | _ => none
 
+/-- characters (scalar values) as hex of their UTF-16 units -/
+def hexU (l : List Nat) : String := hexOfUnits (Spec.utf16Encode l)
+
+mutual
+/-- canonical events of a tree read by `Spec.readDoc` (same tokens as the Xerces re-parse of the harness) -/
+def canonNode : XNode → List String
+  | .elem n a kids =>
+    [":".intercalate (("s:" ++ hexU n) :: a.map fun p => hexU p.1 ++ "=" ++ hexU p.2)]
+      ++ canonKids kids ++ ["e:" ++ hexU n]
+  | .text s => ["t:" ++ hexU s]
+  | .cdata s => ["t:" ++ hexU s]
+  | .comment s => ["m:" ++ hexU s]
+  | .pi t d => ["p:" ++ hexU t ++ ":" ++ hexU d]
+def canonKids : List XNode → List String
+  | [] => []
+  | k :: ks => canonNode k ++ canonKids ks
+end
+
+/-- UTF-16 units of a character sequence given as hex of code points (the check sends what Xerces was given) -/
+def readReply (ver : String) (hexUnits : String) : String :=
+  match verOf ver, unitsOfHex hexUnits with
+  | some v, some units =>
+    match Spec.utf16Decode units with
+    | none => "none"
+    | some chars =>
+      match Spec.readDoc v chars with
+      | some t => " ".intercalate ("tree" :: canonNode t)
+      | none => "none"
+  | _, _ => "bad"
+
 def errName : Err → String
   | .forbidden => "forbidden"
   | .surrogate => "surrogate"
@@ -112,11 +144,29 @@ def deliver (encName : String) (e : Enc) (wchunks : List (List Nat)) : Except St
       else if cs.all (fun c => c.all e.canEnc) then .ok (cs.flatten, cs.map List.length)
       else .error "transcode"
 
-def runDoc (cd : CDataCfg) (fx : Fixes) (enc ver : String) (evs : List String) : String :=
+structure DocOpts where
+  decl : Bool := true
+  sa : List Nat := []
+  sys : List Nat := []
+  pub : List Nat := []
+  ind : Option Nat := none     -- indent="yes" with this indent amount
+
+/-- "decl=0|1,sa=<hex>,sys=<hex>,pub=<hex>" -/
+def parseOpts (s : String) : Option DocOpts :=
+  (s.splitOn ",").foldlM (fun (o : DocOpts) kv =>
+    match kv.splitOn "=" with
+    | ["decl", v] => some { o with decl := v = "1" }
+    | ["sa", v] => (unitsOfHex v).map fun u => { o with sa := u }
+    | ["sys", v] => (unitsOfHex v).map fun u => { o with sys := u }
+    | ["pub", v] => (unitsOfHex v).map fun u => { o with pub := u }
+    | ["ind", v] => v.toNat?.map fun n => { o with ind := some n }
+    | _ => none) {}
+
+def runDoc (o : DocOpts) (cd : CDataCfg) (fx : Fixes) (enc ver : String) (evs : List String) : String :=
   match encOf fx enc, verOf ver, evs.mapM parseEvent with
   | some e, some v, some events =>
-    let cfg : Cfg := ⟨v, e, cd, enc.toList.map Char.toNat⟩
-    match serializeItems cfg events with
+    let cfg : Cfg := ⟨v, e, cd, enc.toList.map Char.toNat, o.decl, o.sa, o.sys, o.pub⟩
+    match (match o.ind with | none => serializeItems cfg events | some n => serializeItemsI cfg true n events) with
     | .error er => "err " ++ errName er
     | .ok items =>
       match writerChunks e.kind items with
@@ -129,8 +179,14 @@ def runDoc (cd : CDataCfg) (fx : Fixes) (enc ver : String) (evs : List String) :
   | _, _, _ => "bad"
 
 def step (s : Unit) : List String → Unit × String
-  | "doc" :: "U" :: enc :: ver :: evs => (s, runDoc CDataCfg.generated Fixes.generated enc ver evs)
-  | "docfixed" :: "U" :: enc :: ver :: evs => (s, runDoc CDataCfg.fixed Fixes.all enc ver evs)
+  | "doc" :: "U" :: enc :: ver :: evs => (s, runDoc {} CDataCfg.generated Fixes.generated enc ver evs)
+  | "docx" :: "U" :: enc :: ver :: opts :: evs =>
+    match parseOpts opts with
+    | some o => (s, runDoc o CDataCfg.generated Fixes.generated enc ver evs)
+    | none => (s, "bad")
+  | "docx" :: _ :: _ => (s, "skip")
+  | "docfixed" :: "U" :: enc :: ver :: evs => (s, runDoc {} CDataCfg.fixed Fixes.all enc ver evs)
+  | ["read", ver, h] => (s, readReply ver h)
   | ["repairc", d] => (s, match unitsOfHex d with | some u => hexOfUnits (repairComment u) | none => "bad")
   | ["repairp", d] => (s, match unitsOfHex d with | some u => hexOfUnits (repairPI u) | none => "bad")
   | "doc" :: _ :: _ => (s, "skip")
